@@ -26,7 +26,7 @@ def load_known() -> dict:
 def match_finding(sig: dict, finding: dict) -> bool:
     for k, v in finding["match"].items():
         sv = sig.get(k)
-        if isinstance(v, list):
+        if isinstance(v, list) and not isinstance(sv, list):
             if sv not in v:
                 return False
         elif sv != v:
